@@ -575,7 +575,8 @@ def projection_rules(rep, ix, fx, cls, om):
                            MOD + ":mirror_covariance_matrix"})
     o = Obj(cls)
     I.paths(top, [], self_obj=o)
-    app = [c for c in I.call_log if c[0] == top.fq and c[1].endswith(".append")]
+    # the geometry may be computed in private methods the public one calls in sequence: they are inlined, their appends count
+    app = [c for c in I.call_log if (c[0] == top.fq or c[0].startswith(cls.fq + ".")) and c[1].endswith(".append")]
     IO = Interp(ix)
     A = lambda n: Rat.sym("self." + n, ("attr",))
     g = lambda x, k: Rat.atom(Fn("getitem", (x, k)))
